@@ -23,7 +23,8 @@ REPLAY = os.path.join(VERIF, '.build', 'replay')
 
 def aggregate(results):
   agg = {'counters': {}, 'digests': set(), 'samples': [], 'violations': [],
-         'viol_mechs': {}, 'errors': [], 'shards': len(results)}
+         'viol_mechs': {}, 'errors': [], 'shards': len(results),
+         'records': []}
   for r in results:
     for k, v in r['counters'].items():
       if k.startswith('max:'):
@@ -40,6 +41,8 @@ def aggregate(results):
       v = dict(v)
       v['shard'] = r['shard']
       agg['violations'].append(v)
+    for rec in r.get('records', []):
+      agg['records'].append((r['shard'], rec))
     for m, n in r.get('viol_mechs', {}).items():
       agg['viol_mechs'][m] = agg['viol_mechs'].get(m, 0) + n
     if r.get('error'):
